@@ -105,6 +105,27 @@ func TestC15DecodeTime(t *testing.T) {
 		t.Fatal(s)
 	}
 	rec.Enumerated(int64((mjdMax - mjdMin + 1) * (len(grid) + 4)))
+	// a field cut short (2..4 bytes: an error) between two complete ones must not influence the next decode
+	if s := parallelRange(mjdMax-mjdMin+1, func(lo, hi uint64) string {
+		for i := lo; i < hi; i++ {
+			mjd := mjdMin + int(i)
+			other := mjdMin + (int(i)+12345)%(mjdMax-mjdMin+1)
+			if s := one(other, 45900); s != "" {
+				return s
+			}
+			full := []byte{byte(mjd >> 8), byte(mjd), 0x23, 0x59, 0x59}
+			if _, err := astits.VerifParseDVBTime(full[:2+int(i)%3]); err == nil {
+				return fmt.Sprintf("parseDVBTime(%x): no error for a truncated field", full[:2+int(i)%3])
+			}
+			if s := one(mjd, 86399); s != "" {
+				return s + " (decoded right after a truncated field of the same day)"
+			}
+		}
+		return ""
+	}); s != "" {
+		t.Fatal(s)
+	}
+	rec.Enumerated(int64((mjdMax - mjdMin + 1) * 2))
 	for _, mjd := range []int{mjdMin, 49273, 51603, mjdMax} {
 		for sod := 0; sod < 86400; sod++ {
 			if s := one(mjd, sod); s != "" {
@@ -118,7 +139,7 @@ func TestC15DecodeTime(t *testing.T) {
 }
 
 func TestC15EncodeTime(t *testing.T) {
-	rec := obs.NewRecorder("C15", "encode_time", "writeDVBTime: all days MJD 15079..65535 as UTC time.Time x times of day (quick: grid of ~31; thorough: all 86400 seconds); expected bytes = MJD(16) + BCD hh mm ss")
+	rec := obs.NewRecorder("C15", "encode_time", "writeDVBTime: all days MJD 15079..65535 as UTC time.Time x times of day (quick: grid of ~31; thorough: all 86400 seconds), then every day again in pairs with the same day 2^k years (k=0..7) and 2^k months (k=0..3) away, in both orders; expected bytes = MJD(16) + BCD hh mm ss")
 	defer rec.Flush()
 	grid := todGrid()
 	if obs.Thorough() {
@@ -148,6 +169,52 @@ func TestC15EncodeTime(t *testing.T) {
 		t.Fatal(s)
 	}
 	rec.Enumerated(int64((mjdMax - mjdMin + 1) * len(grid)))
+	// the result must not depend on what was encoded before: every day again, right after the same day of the month 1, 2,
+	// 4, ... 128 years and 1, 2, 4, 8 months away (and the other way round) - the neighbours a memo keyed by a truncated
+	// field would confuse
+	jumps := int64(0)
+	if s := parallelRange(mjdMax-mjdMin+1, func(lo, hi uint64) string {
+		var buf bytes.Buffer
+		enc := func(y, mo, d int) string {
+			tt := time.Date(y, time.Month(mo), d, 12, 0, 0, 0, time.UTC)
+			if tt.Day() != d {
+				return "" // no such day in that month
+			}
+			mjd := ref.MJDFromCivil(tt.Year(), int(tt.Month()), d)
+			if mjd < mjdMin || mjd > mjdMax {
+				return ""
+			}
+			buf.Reset()
+			n, err := astits.VerifWriteDVBTime(&buf, tt)
+			want := []byte{byte(mjd >> 8), byte(mjd), 0x12, 0, 0}
+			if err != nil || n != 5 || !bytes.Equal(buf.Bytes(), want) {
+				return fmt.Sprintf("writeDVBTime(%v) = %x (n=%d, err=%v), want %x", tt, buf.Bytes(), n, err, want)
+			}
+			return ""
+		}
+		for i := lo; i < hi; i++ {
+			y, mo, d := ref.CivilFromMJD(mjdMin + int(i))
+			for k := 0; k < 12; k++ {
+				y2, mo2 := y+1<<uint(k), mo
+				if k >= 8 {
+					y2, mo2 = y, mo+1<<uint(k-8)
+				}
+				for _, pair := range [][2][2]int{{{y, mo}, {y2, mo2}}, {{y2, mo2}, {y, mo}}} {
+					if s := enc(pair[0][0], pair[0][1], d); s != "" {
+						return s
+					}
+					if s := enc(pair[1][0], pair[1][1], d); s != "" {
+						return s + fmt.Sprintf(" (encoded right after %04d-%02d-%02d)", pair[0][0], pair[0][1], d)
+					}
+				}
+			}
+		}
+		return ""
+	}); s != "" {
+		t.Fatal(s)
+	}
+	jumps = int64(mjdMax-mjdMin+1) * 12 * 4
+	rec.Enumerated(jumps)
 	rec.SetExhaustive(obs.Thorough())
 	rec.Sample(map[string]interface{}{"time": "1993-10-13T12:45:00Z", "encoded": "c079124500"})
 }
